@@ -210,6 +210,15 @@ def main(argv):
     with open(argv[3], encoding="utf-8") as f:
         corpus = [ln.rstrip("\r\n") for ln in f]
     corpus = [c for c in corpus if c.strip()]
+    # a statement that leaves an unpaired `$tag$` opener outside its string literals (`SELECT 1 AS $alias$name$ ...`: an identifier
+    # with dollar signs when alone) pairs up with another copy of itself in the same script as ONE dollar-quoted string across the
+    # statements between them; the joined text is then not the sequence of these statements (like INSERT ... FORMAT payloads)
+    import re as _re
+
+    def _dollar_ok(c):
+        t = _re.sub(r"'(?:[^'\\]|\\.|'')*'|`[^`]*`|\"[^\"]*\"", "", c)
+        return t.count("$") % 2 == 0
+    corpus = [c for c in corpus if _dollar_ok(c)]
     if not corpus:
         sys.stderr.write("gen_script_cases: empty corpus\n")
         return 2
